@@ -813,7 +813,11 @@ func decNegintPosintFloatNumberHelperInt64v(ui uint64, neg, incrIfNeg bool) (i i
 	if neg && incrIfNeg {
 		ui++
 	}
-	i = chkOvf.SignedIntV(ui)
+	// ui is a magnitude: -ui fits down to math.MinInt64 (ui == 1<<63), +ui up to math.MaxInt64
+	if chkOvf.Uint2Int(ui, neg) {
+		halt.errorUint("uint64 to int64 overflow: ", ui)
+	}
+	i = int64(ui)
 	if neg {
 		i = -i
 	}
